@@ -48,6 +48,10 @@ type Type struct {
 	Ref      string   `json:"ref,omitempty"`
 	V        *Valid   `json:"v,omitempty"` // validations declared on this occurrence
 	View     string   `json:"view,omitempty"`
+	// Extra holds further validations that apply to this occurrence (conjunction). It is never
+	// part of a Spec: the reference model fills it with the validations written on the HTTP
+	// mapping element of the attribute (Spec.RequestType, ref_http.go).
+	Extra []*Valid `json:"-"`
 }
 
 // Attr is a named attribute of an object.
@@ -93,6 +97,17 @@ type Map struct {
 	Wire string `json:"wire"`
 }
 
+// MapRule says that the HTTP mapping element of a payload attribute is written with a type and
+// a validation DSL of its own: Param("attr:wire", <T>, func() { <V> }), Header(...), Cookie(...).
+// The element (its location and wire name) is the Map naming the same attribute in the Params /
+// Headers / Cookies list of the same level (endpoint, service or API); when no Map names it, it is
+// a path parameter bound by that level's path and is declared with Param("attr", <T>, func...).
+type MapRule struct {
+	Attr string `json:"attr"`
+	T    *Type  `json:"t,omitempty"` // the explicit type the DSL needs (the payload attribute's type)
+	V    *Valid `json:"v,omitempty"`
+}
+
 // TagSel selects a response by the value of a result attribute.
 type TagSel struct {
 	Attr  string `json:"attr"`
@@ -108,6 +123,8 @@ type Resp struct {
 	Body        string  `json:"body,omitempty"` // "": default, "attr:<name>", "attrs:a,b", "empty"
 	ContentType string  `json:"content_type,omitempty"`
 	Error       string  `json:"error,omitempty"` // non-empty: response for that error name
+	// Rules: response headers / cookies declared with a validation DSL of their own
+	Rules []MapRule `json:"rules,omitempty"`
 }
 
 // HTTPMap is the HTTP mapping of a method.
@@ -124,6 +141,8 @@ type HTTPMap struct {
 	Multipart bool     `json:"multipart,omitempty"`
 	SkipReq   bool     `json:"skip_req,omitempty"`
 	SkipResp  bool     `json:"skip_resp,omitempty"`
+	// Rules: endpoint-level mapping elements declared with a validation DSL
+	Rules []MapRule `json:"rules,omitempty"`
 }
 
 // ErrorDef declares an error on a method, service or API.
@@ -193,6 +212,12 @@ type Service struct {
 	Security *Security  `json:"security,omitempty"`
 	Methods  []*Method  `json:"methods"`
 	Files    []string   `json:"files,omitempty"` // "path dir"
+	// service-level HTTP mapping elements (HTTP(func() { Params(func() { Param(...) }); Header(...); Cookie(...) })
+	// in the Service DSL): they apply to every method of the service
+	Params  []Map     `json:"params,omitempty"`
+	Headers []Map     `json:"headers,omitempty"`
+	Cookies []Map     `json:"cookies,omitempty"`
+	Rules   []MapRule `json:"rules,omitempty"`
 }
 
 // Spec is one design (one program given to goa).
@@ -207,6 +232,12 @@ type Spec struct {
 	Types    []*TypeDef `json:"types,omitempty"`
 	Services []*Service `json:"services"`
 	Family   string     `json:"family,omitempty"`
+	// API-level HTTP mapping elements (HTTP DSL of the API expression): they apply to every method
+	// of every service of the design
+	APIParams  []Map     `json:"api_params,omitempty"`
+	APIHeaders []Map     `json:"api_headers,omitempty"`
+	APICookies []Map     `json:"api_cookies,omitempty"`
+	APIRules   []MapRule `json:"api_rules,omitempty"`
 }
 
 // TypeDefByName returns the named definition or nil.
